@@ -112,7 +112,8 @@ let op_tp_upd a =
   let f = tp_get a in
   let incs = List.map (fun g -> g.f_st.tp_segs) (tp_existing f.f_inc) in
   let excs = List.map (fun g -> g.f_st.tp_segs) (tp_existing f.f_exc) in
-  f.f_st <- tp_update_region true (tp_upd_fun f) f.f_prefer incs excs
+  (* the form of UpdateRegion (early return / merge in every round) is the one the source has now (Facts_c08) *)
+  f.f_st <- tp_update_region_ma true tp_src_merge_always (tp_upd_fun f) f.f_prefer incs excs
       (z_of_int (tnum (str a "b" "0"))) (z_of_int (tnum (str a "e" "0"))) (num a "clear" 1 <> 0) f.f_st;
   tp_emit_state a
 
@@ -133,7 +134,7 @@ let op_tp_timer _ =
     | Some f when f.f_active ->
       let incs = List.map (fun g -> g.f_st.tp_segs) (tp_existing f.f_inc) in
       let excs = List.map (fun g -> g.f_st.tp_segs) (tp_existing f.f_exc) in
-      f.f_st <- tp_roll_round (tp_upd_fun f) f.f_prefer ((z_of_int !now, incs), excs) f.f_st;
+      f.f_st <- tp_roll_round tp_src_merge_always (tp_upd_fun f) f.f_prefer ((z_of_int !now, incs), excs) f.f_st;
       emit (tp_state_line name f.f_st (List.map (fun t -> tp_is_inside f.f_st (z_of_int t)) !tp_pts))
     | _ -> ()) !tp_order
 
@@ -216,7 +217,9 @@ let oracle_c08_case script trace =
               let e = z_of_int (!clock + 86400) in
               let r = ((nowz, List.map (fun g -> g.f_st.tp_segs) (existing f.f_inc)), List.map (fun g -> g.f_st.tp_segs) (existing f.f_exc)) in
               let effective = tp_roll_effective r pre in
-              if effective then f.f_snap <- (snd (fst r), snd r);
+              (* the view of the referenced periods the state reflects: the last round that recomputed (early-return form)
+                 / every round (merge-in-every-round form) *)
+              if effective || tp_src_merge_always then f.f_snap <- (snd (fst r), snd r);
               let lo = max f.f_n0 (!clock - 3600) in
               let (base, tab) = !zone in
               let rg = List.map (fun (_, dd, trs) -> (dd, trs)) f.f_ranges in
@@ -306,16 +309,16 @@ let oracle_c08_case script trace =
           let pre = f.f_st in
           let verdict =
             match opn with
-            | "tp_add" -> if tp_step_ok probes (TpOpAdd (zi "b", zi "e")) pre post ins then None else Some "add"
-            | "tp_rm" -> if tp_step_ok probes (TpOpRemove (zi "b", zi "e")) pre post ins then None else Some "remove"
-            | "tp_purge" -> if tp_step_ok probes (TpOpPurge (zi "t")) pre post ins then None else Some "purge"
+            | "tp_add" -> if tp_step_ok tp_src_merge_always probes (TpOpAdd (zi "b", zi "e")) pre post ins then None else Some "add"
+            | "tp_rm" -> if tp_step_ok tp_src_merge_always probes (TpOpRemove (zi "b", zi "e")) pre post ins then None else Some "remove"
+            | "tp_purge" -> if tp_step_ok tp_src_merge_always probes (TpOpPurge (zi "t")) pre post ins then None else Some "purge"
             | _ ->
               let clear = opn = "tp_start" || num a "clear" 1 <> 0 in
               if opn = "tp_start" then begin
                 f.f_active <- true; f.f_n0 <- !clock; f.f_snap <- (incs, excs)
               end;
               if f.f_ranges = [] then
-                (if tp_step_ok probes (TpOpUpdate (f.f_own, f.f_prefer, incs, excs, zi "b", zi "e", clear)) pre post ins
+                (if tp_step_ok tp_src_merge_always probes (TpOpUpdate (f.f_own, f.f_prefer, incs, excs, zi "b", zi "e", clear)) pre post ins
                  then None else Some "update-region")
               else begin
                 let (base, tab) = !zone in
@@ -330,7 +333,7 @@ let oracle_c08_case script trace =
                 if opn = "tp_start" && not (tp_probes_cover probes (tp_spec_bounds base tab allr (zi "b") (z_of_int (nmax + 86400)))) then
                   Some "calendar t=0 class=7"
                 else
-                match tp_cal_step_ok base tab allr rg
+                match tp_cal_step_ok base tab tp_src_merge_always allr rg
                         f.f_prefer incs excs (zi "b") (zi "e") clear probes pre post ins with
                 | None -> None
                 | Some (t, cls) -> Some (Printf.sprintf "calendar t=%s class=%s" (zs t) (zs (tp_class_name cls)))
